@@ -102,6 +102,10 @@ fn mask_digest(d: &str) -> String {
             }
         }
     }
+    // State::Tombstone is the placeholder a finished custom macro item leaves in `states` until the
+    // next tick sweeps it (Layout::process_sequence_custom); no reader looks at it (keycodes(),
+    // release matching and is_idle filter by variant), it only occupies one of the 64 slots
+    out = out.replace(", Tombstone", "").replace("Tombstone, ", "").replace("[Tombstone]", "[]");
     out
 }
 
